@@ -4,14 +4,14 @@
     spliced integers: code bit 1 = the implementation panicked where the model says no trap
     (or did not where the model says trap / returned Ok where the model says Err ...);
     bit 2 = the property itself is violated (panic, abort, signal, time-out, out of memory). *)
-From OxVerif Require Import Base.Util C01.Mach C01.Kernels C01.Depth.
+From OxVerif Require Import Base.Util C01.Mach C01.Kernels C01.Depth C01.Loops.
 From OxVerif Require C16.Model.
 Open Scope Z_scope.
 
 Inductive kernel :=
   KNone | KXrefSub | KSize | KPrev | KXrefStm | KXrefStmP | KObjStm | KLength | KPredictor
 | KRotate | KPageLabel | KOctal | KNest | KNestP | KNestOpen | KLexRun | KContentRun | KContentNest
-| KPrevChain | KCMap | KPng | KFilter | KStrSlice.
+| KPrevChain | KCMap | KPng | KFilter | KStrSlice | KContainer | KEntryLoop | KWindow.
 Inductive preset := PStrict | PDefault | PTolerant | PLenient | PSkip.
 Inductive obs := OOk | OErr | OPanic | OCrash.
 Record case := mkCase { ck : kernel; cargs : list Z; cp : preset; cobs : obs }.
@@ -42,6 +42,21 @@ Definition nest_pred (n : Z) : pred :=
     match fst (parse (Z.to_nat (2 * n + 10)) (Some MAX_NEST) false 0 (tower (Z.to_nat n))) with
     | POk _ => MOkP | PErr => MErrP | PFuel => MBroken end
   else if n <=? Z.of_nat MAX_NEST then MOkP else MErrP.
+
+(** a container chain of [l] nodes 0..l-1; the last one points back so that the cycle has
+    [c] nodes ([c = 0]: the last one is a plain object) *)
+Definition chain_cont (l c : nat) (n : nat) : option nat :=
+  if (S n <? l)%nat then Some (S n)
+  else if (n =? l - 1)%nat then (if (c =? 0)%nat then None else Some (l - c)%nat) else None.
+Definition container_pred (l c : Z) : pred :=
+  match get_object (chain_cont (Z.to_nat l) (Z.to_nat c)) (MAX_LOAD_DEPTH + 2) [] 0 0 with
+  | (LFuel, _) => MBroken
+  | (_, m) => if (m <=? S MAX_LOAD_DEPTH)%nat then MNoTrap else MBroken
+  end.
+Definition entry_loop_pred (nent count ntail : Z) : pred :=
+  let lines := repeat LEntry (Z.to_nat nent) ++ repeat LOther (Z.to_nat (Z.min ntail 200)) in
+  match entry_loop false (S (length lines)) lines 0 (Z.to_nat (Z.min count 100000)) with
+  | EFuel => MBroken | EDone _ => MNoTrap end.
 
 Definition predict (k : kernel) (a : list Z) : pred :=
   match k with
@@ -75,6 +90,9 @@ Definition predict (k : kernel) (a : list Z) : pred :=
   | KPng => match png_sizes (nth0 a 0) (nth0 a 1) (nth0 a 2) (nth0 a 3) (nth0 a 4) with
             | Trap => MTrap | Val Kernels.OErr => MErrP | Val _ => MNoTrap end
   | KStrSlice => MNoTrap
+  | KContainer => container_pred (nth0 a 0) (nth0 a 1)
+  | KEntryLoop => entry_loop_pred (nth0 a 0) (nth0 a 1) (nth0 a 2)
+  | KWindow => if window_request (nth0 a 0) <=? WINDOW_CHUNK then MNoTrap else MTrap
   end.
 
 Definition obs_eqb (a b : obs) : bool :=
@@ -102,4 +120,7 @@ Example judge_ok : case_code (mkCase KXrefSub [0; 6; 6] PDefault OOk) = 0%N. Pro
 Example judge_panic : case_code (mkCase KXrefSub [4294967295; 2; 6] PDefault OPanic) = 3%N. Proof. vm_compute. reflexivity. Qed.
 Example judge_crash : case_code (mkCase KLength [1099511627776; 400] PStrict OCrash) = 2%N. Proof. vm_compute. reflexivity. Qed.
 Example judge_nest_err : case_code (mkCase KNestP [257] PDefault OErr) = 0%N. Proof. vm_compute. reflexivity. Qed.
+Example judge_container_cycle : case_code (mkCase KContainer [2; 2] PStrict OErr) = 0%N. Proof. vm_compute. reflexivity. Qed.
+Example judge_container_crash : case_code (mkCase KContainer [2; 2] PStrict OCrash) = 2%N. Proof. vm_compute. reflexivity. Qed.
+Example judge_entry_loop : case_code (mkCase KEntryLoop [6; 4294967295; 5] PDefault OErr) = 0%N. Proof. vm_compute. reflexivity. Qed.
 Example judge_nest_ok_wrong : case_code (mkCase KNestP [257] PDefault OOk) = 1%N. Proof. vm_compute. reflexivity. Qed.
